@@ -119,7 +119,7 @@ package main
 //@   ensures mapframe: forall k string :: k != dialog ==> has(dbb.backends, k) == old(has(dbb.backends, k)) && dbb.backends[k] == old(dbb.backends[k])
 
 //@ func (*DialogBasedBackend).cleanExpiredDialog
-//@   props C15
+//@   props C15 C04
 //@   modifies mapof(dbb.backends), now
 //@   ensures clock: now >= old(now)
 //@   ensures only-deletes: forall k string :: has(dbb.backends, k) ==> old(has(dbb.backends, k)) && dbb.backends[k] == old(dbb.backends[k])
@@ -360,12 +360,12 @@ package main
 // ---- static routes (C18) ----
 
 //@ func (*PreConfigRoute).toRegularExp
-//@   props C18
+//@   props C18 C03
 //@   modifies nothing
 //@   ensures result == globRe(s)
 
 //@ func NewPreRouteItem
-//@   props C18
+//@   props C18 C03
 //@   ensures noport: !contains(nextHop, ":") ==> err == nil && result != nil && result.host == nextHop && result.protocol == protocol && result.dest == dest
 //@   ensures noport-default: !contains(nextHop, ":") && lower(protocol) != lower("tls") ==> result.port == 5060
 //@   ensures noport-tls: !contains(nextHop, ":") && lower(protocol) == lower("tls") ==> result.port == 5061
@@ -380,7 +380,7 @@ package main
 //@   ensures forall k string :: k != dest ==> has(pcr.items, k) == old(has(pcr.items, k)) && pcr.items[k] == old(pcr.items[k])
 
 //@ func (*PreConfigRoute).FindRoute
-//@   props C18
+//@   props C18 C03
 //@   event frDest: dest
 //@   revent frOk: err == nil
 //@   revent frHost: host
@@ -1053,6 +1053,7 @@ package main
 
 //@ func (*Proxy).getBackendOfResponse
 //@   props C04 C19
+//@   event gborAddr: addr
 //@   revent gborOk: err == nil
 //@   revent gborBackend: result
 //@   ensures by-address: has(p.backends, addr) ==> err == nil && result == p.backends[addr].backend && lookups == old(lookups) && unpins == old(unpins) && pins == old(pins)
@@ -1066,6 +1067,7 @@ package main
 //@   ensures requests-ignored: msg.response == nil ==> pins == old(pins) && unpins == old(unpins) && lookups == old(lookups)
 //@   ensures unattributed-ignored: msg.response != nil && len(gborOk) == len(old(gborOk)) + 1 && !gborOk[len(old(gborOk))] ==> pins == old(pins)
 //@   ensures attributed-once: msg.response != nil ==> len(gborOk) == len(old(gborOk)) + 1
+//@   ensures attributed-by-source-address: msg.response != nil ==> gborAddr == old(gborAddr) ++ seq1(joinHostPort(peerAddr, itoa(peerPort)))
 //@   ensures invite-pins: msg.response != nil && gborOk[len(old(gborOk))] && msg.request == nil
 //@        && firstIdx(msg.headers, "CSeq") >= 0 && isType(msg.headers[firstIdx(msg.headers, "CSeq")].value, "*CSeq") && asRef(msg.headers[firstIdx(msg.headers, "CSeq")].value, "*CSeq").Method == "INVITE" ==>
 //@        len(gdOk) == len(old(gdOk)) + 1
@@ -1077,3 +1079,16 @@ package main
 //@        && (gdId[len(old(gdId))] != "" ==> len(unpins) >= 1 && unpins[len(unpins)-1] == gdId[len(old(gdId))])
 //@   ensures other-methods-leave-pins: msg.response != nil && msg.request == nil && firstIdx(msg.headers, "CSeq") >= 0 && isType(msg.headers[firstIdx(msg.headers, "CSeq")].value, "*CSeq")
 //@        && asRef(msg.headers[firstIdx(msg.headers, "CSeq")].value, "*CSeq").Method != "INVITE" ==> pins == old(pins)
+
+// ---- learned listeners (C06) ----
+//@ func (*SelfLearnRoute).AddRoute
+//@   props C06
+//@   modifies mapof(sl.route)
+//@   ensures learned: has(sl.route, ip) && stProto(sl.route[ip]) == stProto(transport) && stAddr(sl.route[ip]) == stAddr(transport) && stPort(sl.route[ip]) == stPort(transport)
+//@   ensures others-kept: forall k string :: k != ip ==> has(sl.route, k) == old(has(sl.route, k)) && sl.route[k] == old(sl.route[k])
+
+// ---- keep-next-hop-route option (C13) ----
+//@ func toKeepNextHopRoute
+//@   props C13
+//@   ensures from-config: s != "" ==> result == isTruthy(s)
+//@   ensures from-env: s == "" ==> result == isTruthy(envValue("KEEP_NEXT_HOP_ROUTE"))
